@@ -1,4 +1,4 @@
-From FJ Require Import Lib.Base Lib.Bytes Spec.ImageSpec Model.Fjm Proofs.FjmCodec Proofs.FjmReader Proofs.FjmWriter Proofs.FjmProps Proofs.FjmTorn.
+From FJ Require Import Lib.Base Lib.Bytes Spec.ImageSpec Model.Fjm Proofs.FjmCodec Proofs.FjmReader Proofs.FjmWriter Proofs.FjmProps Proofs.FjmTorn Proofs.FjmBound.
 (* C10 - reading an .fjm is total, and damaged or torn files are rejected.  Statements only.
    read_thr thr decompress b models Reader.__init__ on the byte string b; its result is an image (ROk), the
    library's read error (RErr k) or any other exception (RRaw e: KeyError, IndexError, or the model's own fuel). *)
@@ -22,6 +22,48 @@ Theorem C10_consistent :
     supported_width (i_w img) = true /\ i_ver img <= 3 /\ i_segs img = map seg_of (i_table img).
 Proof. exact read_consistent. Qed.
 Print Assumptions C10_consistent.
+
+(* Bounded: what an accepted file makes the reader build is bounded by the BYTES, never by the values in the table.
+   For every accepted byte string b (n = number of table entries, hs = 20 or 32 header bytes):
+   (1) n is the header's segment_num, it is the number of loaded segments, and hs + 32 n <= |b|;
+   (2) the data pool has pool_len words with pool_len * wb = |fd|, fd = the payload (the bytes after the table),
+       or its decompression in version 3;
+   (3) the memory dictionary has at most n * (pool_len + thr - 1) entries (thr = 1000: a zero tail shorter than thr
+       is materialised, a longer one - e.g. a 32-byte entry claiming 2^60 words - is ONE range) and there are at
+       most n zero ranges.
+   Hence entries <= (|b| / 32) * (|fd| / wb + 999).  Outside this bound: a version-3 decompression bomb (|fd| is the
+   DECOMPRESSED size, which liblzma bounds by its ratio, not by a constant times |b|); and entries are a product, not
+   a sum, because versions 0/1 let segments share one data range. *)
+Theorem C10_bounded :
+  forall (thr : N) (decompress : bytes -> option bytes) (b : bytes) (img : image),
+    read_thr thr decompress b = ROk img ->
+    let n := length (i_table img) in
+    let hs := if i_ver img =? 0 then 20%nat else 32%nat in
+    N.of_nat n = u_at 12 8 (firstn header_base_size b) /\
+    length (i_segs img) = n /\
+    (hs + 32 * n <= length b)%nat /\
+    (exists wb fd,
+        word_bytes (i_w img) = Some wb /\
+        (if i_ver img =? 3 then decompress (skipn (hs + 32 * n) b) = Some fd else fd = skipn (hs + 32 * n) b) /\
+        (N.to_nat (i_pool_len img) * wb = length fd)%nat) /\
+    (PositiveMap.cardinal (i_mem img) <= n * (N.to_nat (i_pool_len img) + N.to_nat (thr - 1)))%nat /\
+    (length (i_zeros img) <= n)%nat.
+Proof. exact read_bounded. Qed.
+Print Assumptions C10_bounded.
+
+(* The segment count is checked against the bytes before any per-segment work.  init_segments_loop is the list
+   comprehension of _init_segments exactly as Python runs it - range(segment_num) is lazy, so a count of 2^64-1
+   costs nothing by itself; one f.read(32)+unpack per iteration; the first short read raises struct.error (the read
+   error).  For EVERY count n and byte string b it performs at most |b|/32 + 1 reads, its outcome is the bounded form
+   used inside read_thr, and a count the bytes cannot hold ends in the read error. *)
+Theorem C10_segment_count_checked :
+  forall (n : N) (b : bytes),
+    let '(reads, res) := init_segments_loop (S (length b)) n b in
+    (reads <= length b / 32 + 1)%nat /\
+    res = (if N.of_nat (length b) <? 32 * n then None else read_segs (N.to_nat n) b) /\
+    (N.of_nat (length b) < 32 * n -> res = None).
+Proof. exact segment_count_checked. Qed.
+Print Assumptions C10_segment_count_checked.
 
 (* Torn: every strict prefix of a file produced by the writer (any accepted call sequence, any width / version)
    is rejected with the read error, or still loads exactly the same Reader state (this happens only when the cut
@@ -60,7 +102,15 @@ Example C10_examples :
         mem_eqb (i_mem img) [(0, 1); (1, 2); (2, 3); (3, 4); (4, 0); (5, 0)] &&
         rejected (read Some (firstn (n - 5) file)) && rejected (read Some (firstn (n - 6) file)) &&
         rejected (read Some (firstn 40 file)) && rejected (read Some (firstn 19 file)) &&
-        rejected (read Some (firstn 0 file)) && rejected (read Some (patch file 0 [0]))
+        rejected (read Some (firstn 0 file)) && rejected (read Some (patch file 0 [0])) &&
+        (* a 64-byte file claiming 2^40 segments is refused after 1 read; claiming a 2^60-word segment costs 1 range *)
+        rejected (read Some (patch file 12 [0; 0; 0; 0; 0; 1; 0; 0])) &&
+        (match init_segments_loop (S n) (2 ^ 40) (skipn 32 file) with (reads, None) => Nat.leb reads 2 | _ => false end) &&
+        match read Some (patch file 40 [0; 0; 0; 0; 0; 0; 0; 16]) with
+        | ROk big => pairs_eqb (i_segs big) [(0, 2 ^ 60)] && pairs_eqb (i_zeros big) [(4, 2 ^ 60)] &&
+                     (N.of_nat (PositiveMap.cardinal (i_mem big)) =? 4)
+        | _ => false
+        end
       | _, _ => false
       end
     | _ => false
